@@ -96,6 +96,95 @@ theorem qdone_iff_unchanged (sqrt : K → K) (o : Opts K) (px : List (Pix K)) :
     split <;> split <;> simp [List.length_zipWith, hlen0]
   exact zipWith_beq_all (·.prev) _ px hlen
 
+/-- **the end of `djs_reject` from any working array** (`newmask = badness == 0`, grow in the flattened
+array - repair 0812fab -, `& inmask`, `& outmask` when sticky): pixel `i` (flat C-order position, data of any shape) stays good
+iff it is not excluded and no pixel `j` within `grow` of it has non-zero badness -/
+theorem finishMask_spec (o : Opts K) (px : List (Pix K)) (bad : List K) (hlen : bad.length = px.length) :
+    (finishMask o px bad).1.length = px.length ∧
+    ∀ i (hi : i < px.length), ((finishMask o px bad).1[i]? = some true ↔
+      (Eligible o px[i] ∧
+        ¬ ∃ j, ∃ hj : j < px.length, i ≤ j + o.grow ∧ j ≤ i + o.grow ∧ bad[j] ≠ 0)) := by
+  have hlen0 : (growMask o.grow (bad.map isZero)).length = px.length := by
+    rw [growMask_length, List.length_map, hlen]
+  constructor
+  · unfold finishMask
+    simp only
+    split <;> split <;> simp [List.length_zipWith, hlen0]
+  · intro i hi
+    have hg : (growMask o.grow (bad.map isZero))[i]? = some true ↔
+        ¬ ∃ j, ∃ hj : j < px.length, i ≤ j + o.grow ∧ j ≤ i + o.grow ∧ bad[j] ≠ 0 := by
+      rw [growMask_true _ _ _ (by rw [List.length_map]; omega)]
+      simp only [List.length_map, List.getElem?_map]
+      constructor
+      · rintro h ⟨j, hj, h1, h2, hb⟩
+        have := h j (by omega) h1 h2
+        rw [List.getElem?_eq_getElem (by omega : j < bad.length)] at this
+        simp only [Option.map_some, Option.some.injEq] at this
+        exact hb ((isZero_iff _).1 this)
+      · intro h j hj h1 h2
+        rw [List.getElem?_eq_getElem hj]
+        simp only [Option.map_some, Option.some.injEq]
+        cases hz : isZero bad[j] with
+        | true => rfl
+        | false =>
+          exfalso
+          refine h ⟨j, by omega, h1, h2, fun h0 => ?_⟩
+          rw [(isZero_iff _).2 h0] at hz
+          exact Bool.noConfusion hz
+    unfold finishMask Eligible
+    simp only
+    cases h1 : o.hasIn <;> cases h2 : o.sticky <;>
+      simp only [↓reduceIte, Bool.false_eq_true, zipWith_and_true _ _ _ _ hi, hg, false_imp_iff,
+        true_imp_iff, true_and, and_true, and_assoc] <;> try tauto
+
+/-- the end of the routine applied to the code's working array is `djsRejectPix` -/
+theorem finishMask_badness (sqrt : K → K) (o : Opts K) (px : List (Pix K)) :
+    finishMask o px (px.map (badness sqrt o)) = djsRejectPix sqrt o px := by
+  unfold finishMask djsRejectPix
+  simp only [List.map_map, Function.comp_def]
+
+/-- **djs_reject on data of any shape, `grow` included** (the code after repair 0812fab works on the
+C-order flattened arrays; `px` is that flattening): the statement of `reject_mask` holds with `i`, `j` flat
+positions - the neighbours of a rejected point are its neighbours in the flattened array, as in the IDL
+original (`where` returns flat indices) -/
+theorem reject_mask_nd (sqrt : K → K) (o : Opts K) (px : List (Pix K))
+    (hlo : ∀ lo, o.lower = some lo → 0 ≤ lo) (hup : ∀ up, o.upper = some up → 0 ≤ up)
+    (hmd : ∀ md, o.maxdev = some md → 0 < md)
+    (hs : ∀ p ∈ px, o.useSigma = true → 0 ≤ p.s) :
+    (finishMask o px (px.map (badness sqrt o))).1.length = px.length ∧
+    ∀ i (hi : i < px.length), ((finishMask o px (px.map (badness sqrt o))).1[i]? = some true ↔
+      (Eligible o px[i] ∧
+        ¬ ∃ j, ∃ hj : j < px.length, i ≤ j + o.grow ∧ j ≤ i + o.grow ∧ IsBad sqrt o px[j])) := by
+  rw [finishMask_badness]
+  exact reject_mask sqrt o px hlo hup hmd hs
+
+/-- `qdone` from any working array: true iff the returned mask equals the previous `outmask` -/
+theorem qdone_iff_unchanged_full (o : Opts K) (px : List (Pix K)) (bad : List K) (hlen : bad.length = px.length) :
+    (finishMask o px bad).2 = true ↔ (finishMask o px bad).1 = px.map (·.prev) :=
+  zipWith_beq_all (fun p : Pix K => p.prev) _ px (finishMask_spec o px bad hlen).1
+
+/-- **without `maxrej` the options `groupdim`, `groupsize`, `groupbadpix` are inert** (this is how `iterfit` and
+`combine1fiber` call `djs_reject(..., groupbadpix=True)`; in the code the checks and the block that read them are
+under `if maxrej is not None:`): for any two settings `g`, `g'` of the group options and any shape the routine
+returns the same, namely the end of the routine applied to the working array of the flattened data -/
+theorem groupbadpix_without_maxrej (sqrt : K → K) (o : Opts K) (g g' : GroupOpts) (shape : List Nat)
+    (data mdl s : List K) (hm : mdl.length = data.length) (hsl : s.length = data.length) :
+    djsRejectFull sqrt o g shape data (some mdl) none none s =
+      djsRejectFull sqrt o g' shape data (some mdl) none none s ∧
+    ∃ px : List (Pix K), px.length = data.length ∧
+      djsRejectFull sqrt o g shape data (some mdl) none none s =
+        .ok (finishMask { o with hasIn := false } px (px.map (badness sqrt { o with hasIn := false }))) := by
+  refine ⟨rfl, ?_⟩
+  have h : ∃ px : List (Pix K),
+      djsRejectFull sqrt o g shape data (some mdl) none none s =
+        .ok (djsRejectPix sqrt { o with hasIn := false } px) ∧
+      px.length = data.length := by
+    unfold djsRejectFull djsReject
+    simp only [hm, hsl, ne_eq, not_true_eq_false, if_false, bind, Except.bind, pure, Except.pure, Option.isSome_none]
+    exact ⟨_, rfl, by simp⟩
+  obtain ⟨px, h1, h2⟩ := h
+  exact ⟨px, h2, by rw [finishMask_badness]; exact h1⟩
+
 /-- the hypotheses of `reject_mask` are satisfiable by a pixel that is rejected:
 `data = 5`, `model = 0`, `sigma = 1`, `upper = 3` -/
 example : ∃ (o : Opts ℚ) (p : Pix ℚ), (∀ lo, o.lower = some lo → 0 ≤ lo) ∧
@@ -412,6 +501,95 @@ theorem maskinterp_axis_line (argsort : List K → List Nat) (shape : List Nat) 
           (lineOf shape (shape.length - 1 - a) p).1 (lineOf shape (shape.length - 1 - a) p).2.1)
         (gather false bad.toArray (lineOf shape (shape.length - 1 - a) p).2.2.2
           (lineOf shape (shape.length - 1 - a) p).1 (lineOf shape (shape.length - 1 - a) p).2.1)
+        const).getD (lineOf shape (shape.length - 1 - a) p).2.2.1 0) := by
+  have h1 : (shape.length == 1) = false := by
+    rcases hnd with h | h <;> rw [h] <;> rfl
+  have h2 : (shape.length != 2 && shape.length != 3) = false := by
+    rcases hnd with h | h <;> rw [h] <;> rfl
+  have h3 : ¬ ((a : Int) < 0 ∨ (a : Int) > (shape.length : Int) - 1) := by omega
+  unfold maskinterp
+  simp only [ne_eq, not_true_eq_false, if_false, bind, Except.bind, pure, Except.pure, h1,
+    Bool.false_eq_true, h3, h2, Int.toNat_natCast]
+  refine ⟨_, rfl, ?_⟩
+  rw [List.getElem?_map, List.getElem?_range hp]
+  simp only [Option.map_some, scalar_lit, Nat.cast_zero]
+
+/-- **x mode, end values are held constant**: with the samples `t` in increasing-x order, the masked samples
+before the first (after the last) unmasked one take its value - read through the write-back `ii` -/
+theorem ends_constant_x (y : List K) (bad : List Bool) (x : List K) (ii : List Nat) (const : Bool)
+    (hnd : ii.Nodup) (hlt : ∀ k ∈ ii, k < y.length) (hs : Sorted (ptsX y bad x ii)) :
+    (∀ a (ha : a < (ptsX y bad x ii).length), (ptsX y bad x ii)[a].bad = false →
+      (∀ k (hk : k < a), ((ptsX y bad x ii)[k]'(by omega)).bad = true) →
+      ∀ p (hp : p < a), (maskinterp1X y bad x ii const)[ii[p]'(by simp [ptsX] at ha; omega)]? =
+        some (ptsX y bad x ii)[a].y) ∧
+    (∀ b (hb : b < (ptsX y bad x ii).length), (ptsX y bad x ii)[b].bad = false →
+      (∀ k (_ : b < k) (hk : k < (ptsX y bad x ii).length), (ptsX y bad x ii)[k].bad = true) →
+      ∀ p (_ : b < p) (hp : p < ii.length), (maskinterp1X y bad x ii const)[ii[p]]? =
+        some (ptsX y bad x ii)[b].y) := by
+  have hl : (ptsX y bad x ii).length = ii.length := by simp [ptsX]
+  constructor
+  · intro a ha ga hpre p hp
+    rw [maskinterp_x_writeback y bad x ii const hnd hlt p (by omega)]
+    exact core_left_end _ hs const a ha ga hpre p hp
+  · intro b hb gb hpost p hbp hp
+    rw [maskinterp_x_writeback y bad x ii const hnd hlt p hp]
+    exact core_right_end _ hs const b hb gb hpost p hbp (by omega)
+
+/-- **x mode, a single unmasked sample**: its value is returned at every sample -/
+theorem single_good_x (y : List K) (bad : List Bool) (x : List K) (ii : List Nat) (const : Bool)
+    (hnd : ii.Nodup) (hlt : ∀ k ∈ ii, k < y.length)
+    (a : Nat) (ha : a < (ptsX y bad x ii).length) (ga : (ptsX y bad x ii)[a].bad = false)
+    (honly : ∀ k (hk : k < (ptsX y bad x ii).length), k ≠ a → (ptsX y bad x ii)[k].bad = true)
+    (p : Nat) (hp : p < ii.length) :
+    (maskinterp1X y bad x ii const)[ii[p]]? = some (ptsX y bad x ii)[a].y := by
+  have hl : (ptsX y bad x ii).length = ii.length := by simp [ptsX]
+  rw [maskinterp_x_writeback y bad x ii const hnd hlt p hp]
+  exact core_single_good _ const a ha ga honly p (by omega)
+
+/-- **x mode, the values under the mask do not matter**: two inputs that agree on the unmasked samples
+(at least one unmasked among the samples listed by `ii`) give the same output -/
+theorem independent_of_masked_values_x (y y' : List K) (bad : List Bool) (x : List K) (ii : List Nat)
+    (const : Bool) (hl' : y'.length = y.length)
+    (hsame : ∀ k ∈ ii, bad.getD k false = false → y.getD k 0 = y'.getD k 0)
+    (hgood : ∃ k ∈ ii, bad.getD k false = false) :
+    maskinterp1X y bad x ii const = maskinterp1X y' bad x ii const := by
+  obtain ⟨g, hg, hgb⟩ := hgood
+  have hg1 : ∃ p ∈ ptsX y bad x ii, p.bad = false := by
+    unfold ptsX; exact ⟨_, List.mem_map_of_mem hg, hgb⟩
+  have hg2 : ∃ p ∈ ptsX y' bad x ii, p.bad = false := by
+    unfold ptsX; exact ⟨_, List.mem_map_of_mem hg, hgb⟩
+  have hcore : interpCore (ptsX y bad x ii) const = interpCore (ptsX y' bad x ii) const := by
+    rw [← core_erase _ const hg1, ← core_erase _ const hg2]
+    congr 1
+    unfold eraseY ptsX
+    rw [List.map_map, List.map_map]
+    apply List.map_congr_left
+    intro k hk
+    simp only [Function.comp, scalar_lit, Nat.cast_zero]
+    cases hb : bad.getD k false
+    · have := hsame k hk hb
+      simp only [List.getD_eq_getElem?_getD] at this
+      simp [this]
+    · simp
+  unfold maskinterp1X
+  simp only [hcore, hl']
+
+/-- **the axis loops, x mode** (2-D and 3-D, `xval` given with the shape of `yval`): every output element `p`
+is element `t` of the x-mode `djs_maskinterp1` applied to the line through `p` of `yval`, `mask` and `xval` along
+numpy axis `ndim-1-a` -/
+theorem maskinterp_axis_line_x (argsort : List K → List Nat) (shape : List Nat) (y : List K)
+    (bad : List Bool) (x : List K) (a : Nat) (const : Bool) (hnd : shape.length = 2 ∨ shape.length = 3)
+    (ha : a < shape.length) (p : Nat) (hp : p < y.length) :
+    ∃ out, maskinterp argsort shape shape (some shape) y bad x (some (a : Int)) const = .ok out ∧
+      out[p]? = some ((maskinterp1X
+        (gather 0 y.toArray (lineOf shape (shape.length - 1 - a) p).2.2.2
+          (lineOf shape (shape.length - 1 - a) p).1 (lineOf shape (shape.length - 1 - a) p).2.1)
+        (gather false bad.toArray (lineOf shape (shape.length - 1 - a) p).2.2.2
+          (lineOf shape (shape.length - 1 - a) p).1 (lineOf shape (shape.length - 1 - a) p).2.1)
+        (gather 0 x.toArray (lineOf shape (shape.length - 1 - a) p).2.2.2
+          (lineOf shape (shape.length - 1 - a) p).1 (lineOf shape (shape.length - 1 - a) p).2.1)
+        (argsort (gather 0 x.toArray (lineOf shape (shape.length - 1 - a) p).2.2.2
+          (lineOf shape (shape.length - 1 - a) p).1 (lineOf shape (shape.length - 1 - a) p).2.1))
         const).getD (lineOf shape (shape.length - 1 - a) p).2.2.1 0) := by
   have h1 : (shape.length == 1) = false := by
     rcases hnd with h | h <;> rw [h] <;> rfl
